@@ -7,6 +7,7 @@ import math
 import numpy as np
 
 from mchap.assemble.haplotype_calling import call_posterior_haplotypes
+from mchap.jitutils import genotype_alleles_as_index
 from mchap.assemble.classes import PosteriorGenotypeDistribution, GenotypeMultiTrace
 from mchap.application import assemble as APP
 from mchap.io.loci import Locus, SNP
@@ -208,6 +209,25 @@ def check_assemble_application(tier, seed):
                 afp = np.asarray(data.sampledata[FORMAT.AFP][s], dtype=float)
                 if len(gp) != math.comb(n_rec + ploidy[s] - 1, ploidy[s]) or gp.sum() > 1 + 1e-9:
                     bad("rt/assemble_gp_cardinality", "mchap.application.assemble._genotype_posterior_as_array", dict(inp, sample=s), {"len": int(len(gp)), "sum": float(gp.sum())}, {"len": math.comb(n_rec + ploidy[s] - 1, ploidy[s]), "sum": "<= 1"}, "GP has one entry per genotype over the record's alleles")
+                else:
+                    # GP content: the posterior of every genotype made of listed (called, unmasked) haplotypes only, at its VCF
+                    # position; genotypes containing an excluded haplotype or the masked reference get nothing
+                    seq2allele = {q: 1 + k_ for k_, q in enumerate(alts)}
+                    hap2allele = {}
+                    for q, h in label.items():
+                        if h == (0, 0, 0):
+                            if not masked:
+                                hap2allele[h] = 0
+                        elif q in seq2allele:
+                            hap2allele[h] = seq2allele[q]
+                    exp_gp = np.zeros(len(gp))
+                    for g in traces[s]:
+                        rows = [tuple(int(x) for x in r) for r in g]
+                        if all(r in hap2allele for r in rows):
+                            idx = int(genotype_alleles_as_index(np.array(sorted(hap2allele[r] for r in rows), dtype=np.int64)))
+                            exp_gp[idx] += 1.0 / steps
+                    if np.abs(gp - exp_gp).max() > 1e-9:
+                        bad("rt/assemble_gp_is_posterior_of_listed_genotypes", "mchap.application.assemble._genotype_posterior_as_array", dict(inp, sample=s, alts=alts, refmasked=masked), gp.tolist(), exp_gp.tolist(), "GP[i] = posterior probability of the i-th genotype (VCF order) over the listed alleles; nothing for genotypes using an excluded haplotype or a masked reference")
                 if len(afp) != n_rec or afp.sum() > 1 + 1e-9:
                     bad("rt/assemble_afp", "mchap.application.assemble.program.call_sample_genotypes", dict(inp, sample=s), afp.tolist(), "R-length, sums to at most one")
             if len(samples) < 2:
